@@ -51,7 +51,7 @@ RESOLVE = [dict(prog=dict(cls=c, steps="g", comp=0, ucons=[], lmis=l, metrics=1,
 
 
 def run(tier):
-    return sc.run_family(PID, tier, RULE, select, want=want, cap=dict(quick=350, thorough=3000), extra_paths=[FAKE],
+    return sc.run_family(PID, tier, RULE, select, want=want, cap=dict(quick=350, thorough=1500), extra_paths=[FAKE],
                          always=[twin(BIG)] + RESOLVE, transform=twin,
                          assumptions=["the stand-in mosek module follows MOSEK's documented conventions (lower-triangular "
                                       "sparse symmetric matrices; y = s_l^c - s_u^c; barsj <= 0 for a maximisation "
